@@ -8,6 +8,7 @@ import (
 	"sort"
 	"strconv"
 	"strings"
+	"time"
 
 	"github.com/paulmach/orb"
 	"github.com/paulmach/osm"
@@ -253,7 +254,7 @@ func (d *c17DS) addInvalidMPRel(class string, tagged bool) (map[c17Key]bool, *os
 	}
 	outer, opos := d.ring(cx, cy, rad, r.Range(4, 7), 0.7, 1.0, true)
 	innerRing := func(present bool) ([]int64, map[int64]c17Pt) {
-		return d.ring(cx, cy, rad, r.Range(3, 5), 0.1, 0.3, present)
+		return d.ring(cx, cy, rad, r.Range(3, 5), 0.1, 0.25, present) // inside any star ring of radii >= 0.7 (gaps <= 135 degrees)
 	}
 	switch class {
 	case "missing-outer-piece":
@@ -688,7 +689,16 @@ func c17InlineTrio(seed uint64, tagged bool) (map[string]*c17DS, map[c17Key]bool
 			ps = append(ps, piece{refs: a, role: "outer", orient: dir}, piece{refs: b, role: "outer", orient: bdir})
 		}
 		if r.Bool() {
-			in, p2 := d.ring(cx, cy, rad, r.Range(3, 5), 0.1, 0.3, false)
+			in, p2 := d.ring(cx, cy, rad, r.Range(3, 5), 0.1, 0.25, false)
+			var oring []c17Pt
+			for _, id := range outer {
+				oring = append(oring, pos[id])
+			}
+			for _, id := range in {
+				if !c17InRing(p2[id], oring) {
+					panic("C17 harness: generated hole vertex outside its outer ring")
+				}
+			}
 			for k, v := range p2 {
 				pos[k] = v
 			}
@@ -700,7 +710,8 @@ func c17InlineTrio(seed uint64, tagged bool) (map[string]*c17DS, map[c17Key]bool
 		r.Shuffle(len(ps), func(i, j int) { ps[i], ps[j] = ps[j], ps[i] })
 		relID := d.newID(d.usedR)
 		// from here on the variants differ; no more PRNG draws
-		waysPresent := variant == "ways" || variant == "both" || variant == "ways+orient"
+		taggedWays := strings.HasSuffix(variant, "-tagged")
+		waysPresent := variant == "ways" || variant == "both" || variant == "ways+orient" || taggedWays
 		nodesPresent := variant != "inline"
 		if nodesPresent {
 			var ids []int64
@@ -716,6 +727,18 @@ func c17InlineTrio(seed uint64, tagged bool) (map[string]*c17DS, map[c17Key]bool
 		for _, p := range ps {
 			if waysPresent {
 				w := &osm.Way{ID: osm.WayID(p.id), Version: 1}
+				if taggedWays {
+					// tags and meta of their own: old-style relations take them, and the
+					// ways are features in their own right
+					w.Version, w.ChangesetID, w.UserID, w.User = 3, osm.ChangesetID(1000+p.id%1000), 77, "mapper"
+					w.Timestamp = time.Date(2020, 2, 3, 4, 5, 6, 0, time.UTC)
+					w.Tags = osm.Tags{{Key: "name", Value: p.role + " piece"}}
+					if p.role == "outer" {
+						w.Tags = append(w.Tags, osm.Tag{Key: "building", Value: "yes"})
+					} else {
+						w.Tags = append(w.Tags, osm.Tag{Key: "landuse", Value: "grass"})
+					}
+				}
 				for _, id := range p.refs {
 					w.Nodes = append(w.Nodes, osm.WayNode{ID: osm.NodeID(id)})
 				}
@@ -725,7 +748,7 @@ func c17InlineTrio(seed uint64, tagged bool) (map[string]*c17DS, map[c17Key]bool
 			switch variant {
 			case "ways+orient":
 				m.Orientation = p.orient
-			case "inline", "both":
+			case "inline", "both", "both-tagged":
 				m.Nodes = c17InlineNodes(p.refs, pos, func(int64) bool { return true })
 			case "inline+n":
 				m.Nodes = c17InlineNodes(p.refs, pos, func(int64) bool { return false })
@@ -747,7 +770,7 @@ func c17InlineTrio(seed uint64, tagged bool) (map[string]*c17DS, map[c17Key]bool
 	return out, own
 }
 
-var c17InlineVariants = []string{"ways", "inline", "inline+n", "both", "ways+orient"}
+var c17InlineVariants = []string{"ways", "inline", "inline+n", "both", "ways+orient", "ways-tagged", "both-tagged"}
 
 func c17ExecInvalid(c fw.Case, res *fw.Result) {
 	switch c.Kind {
@@ -758,8 +781,25 @@ func c17ExecInvalid(c fw.Case, res *fw.Result) {
 		tagged := c.Int("tagged") != 0
 		trio, own := c17InlineTrio(c.Seed, tagged)
 		geom := map[string][16]string{}
+		whole := map[string][16][]map[string]any{}
+		defer func() {
+			// member geometry on top of the real, tagged ways must not change anything
+			a, b := whole["ways-tagged"], whole["both-tagged"]
+			for mask := 0; mask < 16; mask++ {
+				if a[mask] == nil || b[mask] == nil {
+					continue
+				}
+				res.Add("mpinline_whole_output_comparisons", 1)
+				if fw.JSON(a[mask]) != fw.JSON(b[mask]) {
+					res.Violate("C17/mpinline/member-nodes-change-output-of-present-ways", fmt.Sprintf("a valid multipolygon over tagged ways converts differently when its members also carry their (agreeing) path as member nodes (options %s): without %s / with %s",
+						c17MaskName(mask), fw.JSON(a[mask]), fw.JSON(b[mask])), map[string]any{"input_ways": c17Describe(trio["ways-tagged"].o), "input_both": c17DescribeMembers(trio["both-tagged"].o)})
+					break
+				}
+			}
+		}()
 		for _, variant := range c17InlineVariants {
 			feats := c17CheckLight(res, trio[variant], "inline-"+variant, own)
+			whole[variant] = feats
 			var g [16]string
 			for mask, fs := range feats {
 				var polys []string
@@ -779,6 +819,9 @@ func c17ExecInvalid(c fw.Case, res *fw.Result) {
 			geom[variant] = g
 		}
 		for _, variant := range c17InlineVariants[1:] {
+			if strings.HasSuffix(variant, "-tagged") {
+				continue
+			}
 			for mask := 0; mask < 16; mask++ {
 				if geom["ways"][mask] == "" {
 					res.Add("mpinline_reference_without_polygon", 1)
